@@ -88,8 +88,11 @@ class ReproCheck:
             # between models), under both goals
             if idx % 8 == 7:
                 cover = {"tied": True, "flags": {"clockwork_goal": ["clockwork", "least_slack"][(idx // 8) % 2]}}
+        if prof == "clockwork":
+            # fresh `python main.py` processes have no harness to pre-load models: the policy loads them itself
+            cover = dict(cover, p_preload=0.0)
         w = worldgen.gen_world(seed, idx, prof, **(over if prof == "greedy" else cover))
-        w["meta"]["source"] = src if prof == "greedy" else ("clockwork_tied" if cover else "clockwork")
+        w["meta"]["source"] = src if prof == "greedy" else ("clockwork_tied" if cover.get("tied") else "clockwork")
         return w
 
     def run_shard(self, spec, workdir):
